@@ -59,6 +59,17 @@ CLAIMED["C32"] = dict(
     note="Bounded model checking over all token sequences up to the length bound per enumerated grammar; the 3-/4-production space is sampled, not exhaustive. Grammars rejected with ParserGenerationException are counted and skipped (builder completeness not claimed). Earley parser not covered. Builder set-iteration nondeterminism: one build per harness.",
     technique=TECH_ENUM)
 
+CLAIMED["C14"] = dict(
+    level="model_checking", design="§4 C14",
+    text="All paths of ppci's real object/archive save and load code (ObjectFile.save/load, serialize/deserialize, Archive.save/load, debug-info serializer, bin2asc/asc2bin, make_num) run with every numeric field (addresses, alignment, symbol value/size/id, relocation offset/addend incl. negatives, image address, entry id, all debug-info integers; |v| < 2**64 quick / 2**128 thorough) and every data byte symbolic. z3 proves per path that the reloaded object equals the original field by field, incl. entry point, debug info, arch and lookup tables that ObjectFile.__eq__ ignores, that __eq__ holds, and that linking the reloaded objects/archive gives a byte-identical result. Shapes enumerated: 0-3 sections, data lengths on both sides of the 30-byte text switch, symbol/relocation/image variants, debug graphs, archives of 0-3 objects.",
+    note="Trusted: z3, the field inventory ref/objsnap.py, hex/int(.,16)/binascii/json contracts (one concrete model per path goes through the real json/hex/binascii unshimmed and must agree), the proxy engine. hex() has variable length: fields of one object are combined along 1-3 diagonals of sign/digit-count classes plus selected pairs, not the full class product. Names are concrete samples. Relinking checked for x86_64 rel32/absaddr32 only.",
+    technique=TECH)
+CLAIMED["C35"] = dict(
+    level="model_checking", design="§4 C35",
+    text="All paths of the real RSP sender and receiver (RspHandler sendpkt/send/_process_byte/decodepkt/rsp_pack/rsp_unpack, decoder(), transport.TCP.recv_thread/recv/send over a fake socket) for every payload of 0..4 (thorough 0..6) 7-bit characters incl. $ # } * ' and every chunking of the byte stream (symbolic chunk boundaries): the wire frame conforms to the GDB manual (escaping, checksum), exactly one delivery equal to the payload, exactly one '+'; any single corrupted checksum digit or data byte giving a bad checksum is nacked, not delivered, retransmitted once. For every ack/nack/timeout sequence and retry budget 1..10: transmissions = 1 + min(nacks, budget), return iff acked, ValueError iff budget exhausted. Arbitrary 7-bit byte streams <= 6 (7) bytes agree with a reference receiver; notifications interleaved with acks/nacks are delivered exactly once in order.",
+    note="Trusted: z3, the transcription of the GDB manual in ref/rsp.py, the proxy engine (every path cross-checked concretely on the unmodified code), the source-level f-string conversion of rsp_pack (symx/fstr.py), an exhaustively validated int(s,16) model. The fake socket and the single-threaded queue model (unsatisfiable wait = timeout) are assumptions; real thread interleavings, queue.Queue blocking, stale/duplicate acks, run-length encoding and longer payloads are outside the claim.",
+    technique=TECH)
+
 NOT_APPLICABLE = {
     "C04": "property is about native execution of whole gcc/ppci-compiled programs; no x86-64 semantics model is in reach and running binaries is enumeration of concrete runs, not solver-based checking",
     "C06": "dataflow property over uninterpreted instruction semantics: a checker would be tag propagation in which a solver decides nothing",
